@@ -158,6 +158,18 @@ CHECKS = {
              'bytes, PropertiesChanged from sendMessage; random histories with more values are validated by TLC.',
         design_ref='DESIGN.md section 3 (C17)',
         note='Trusts: TLC; interface "" only with names declared once; one object shape.'),
+    'C10': dict(
+        technique='TLA+ spec Objects.tla (dispatch decision tree, replies, Deferred completion as a history machine) '
+                  'model-checked by TLC; graph replayed through handleMethodCallMessage; recorded streams validated by TLC',
+        text='TLC explores every call shape (right / missing / wrong / unknown interface, unknown member, wrong signature, '
+             'unknown path, reply expected or not) against a catalogue of 16 method bindings (dbus_<name> and decorator bindings '
+             'of one member on two interfaces, inherited interface, dbusCaller users, value / tuple / struct / single-element '
+             'array / None / Deferred / named, unnamed, badly named and NUL-carrying exceptions / unencodable and wrong-arity '
+             'values) and all interleavings of up to 3 calls with Deferreds firing or failing later (at most one reply, '
+             'addressed, exactly one when settled, none when flagged, user code ran iff dispatched). Every edge and random '
+             'walks are replayed on a real DBusObjectHandler; random streams are validated by TLC.',
+        design_ref='DESIGN.md section 3 (C10)',
+        note='Trusts: TLC; undispatched calls flagged no-reply are outside the model (property allows 0 or 1 reply).'),
 }
 
 NOT_YET = 'check not built yet (build in progress; see DESIGN.md section 6)'
